@@ -14,11 +14,35 @@ package proxyserver
 //@ ghost var lastSent net.Conn
 
 //@ -- counting: the call is the counting event (the body forwards to the Prometheus counter when registered)
-//@ func (*Server).metricsRequestsTotalInc :: server, ok, negotiatedProtocol
+//@ -- the Prometheus side (assumed): WithLabelValues selects the series of exactly the labels given, Inc adds one to it
+//@ ghost var promOk string
+//@ ghost var promProto string
+//@ ghost var promIncs int
+//@ func prometheus.(*CounterVec).WithLabelValues :: v, lvs -> c
 //@   trusted
-//@   assigns evlog, incCount, lastOk, lastProto
+//@   assigns promOk, promProto
+//@   ensures c != nil && (len(lvs) == 2 ==> promOk == lvs[0] && promProto == lvs[1])
+//@ func prometheus.Counter.Inc :: c
+//@   trusted
+//@   assigns promIncs
+//@   ensures promIncs == old(promIncs) + 1
+//@ func (*Server).metricsRegistered :: server -> r
+//@   props C16
+//@   requires server != nil
+//@   assigns nothing
+//@   ensures r <==> server.metricRequestsTotal != nil
+//@ func (*Server).metricsRequestsTotalInc :: server, ok, negotiatedProtocol
+//@   props C16
+//@   requires server != nil
+//@   assigns evlog, incCount, lastOk, lastProto, promOk, promProto, promIncs
+//@   ghostset incCount = incCount + 1
+//@   ghostset lastOk = ok
+//@   ghostset lastProto = negotiatedProtocol
+//@   ghostset evlog = evlog ++ seq[int]{9}
 //@   ensures incCount == old(incCount) + 1 && lastOk == ok && lastProto == negotiatedProtocol
 //@   ensures evlog == old(evlog) ++ seq[int]{9}
+//@   ensures [C16:the-series-of-exactly-these-labels-is-incremented-once-when-metrics-are-registered] server.metricRequestsTotal != nil ==> promIncs == old(promIncs) + 1 && promOk == ok && promProto == negotiatedProtocol
+//@   ensures [C16:nothing-counted-elsewhere] server.metricRequestsTotal == nil ==> promIncs == old(promIncs)
 
 //@ func (*Server).logf
 //@   trusted
